@@ -1139,6 +1139,9 @@ func (p *printer) printNode(node any) error {
 
 	// format node
 	switch n := node.(type) {
+	case *ast.ForPhraseStmt:
+		// a statement, although it also satisfies ast.Expr through the embedded *ast.ForPhrase
+		p.stmt(n, false)
 	case ast.Expr:
 		p.expr(n)
 	case ast.Stmt:
